@@ -462,13 +462,16 @@ def l3(model: Model, rep: Report):
                        "(parent layer precedes child layer => causal listing) [= C01.R6]")
     from .c01 import r6
     sub = Report(rep.prop_id, rep.tier, rep.src_root, quiet=True, write=False)
-    r6(model, sub)
-    for o in sub.obligations:
-        o = dict(o)
-        o["rule"] = "C02.L3"
-        rep.obligations.append(o)
-    for fl in sub.floors:
-        rep.floors.append(fl)
+    try:
+        r6(model, sub)
+    finally:
+        # what R6 decided before it met something it does not read is kept (a violation found on one path stands)
+        for o in sub.obligations:
+            o = dict(o)
+            o["rule"] = "C02.L3"
+            rep.obligations.append(o)
+        for fl in sub.floors:
+            rep.floors.append(fl)
 
 
 # ---------------------------------------------------------------------------------------------
